@@ -262,6 +262,8 @@ def run(res, tier, seed, replay_script=None):
     serial_broken = set()
     ids = list(scripts)
     BATCH = 400
+    FULL_CROSS = 1600
+    nruns = 0
     pool = 4 if tier == "quick" else 8
     for b0 in range(0, len(ids), BATCH):
         bids = ids[b0:b0 + BATCH]
@@ -278,8 +280,13 @@ def run(res, tier, seed, replay_script=None):
             wd = os.path.join(WORK, "omp-%d-%s%s" % (t, s.replace(",", "_"), tagb))
             rc, cases, so, se = run_scripts_safe(odrv, blines, wd, "scripts", timeout=3000, env=omp_env(t, s), case_timeout=90)
             return cfg, rc, cases, se
+        # the full cross product thread counts x schedules for the first FULL_CROSS scripts; after that every script still runs
+        # with all five thread counts, the schedule rotating with the batch (OMP_SCHEDULE only matters for schedule(runtime)
+        # loops, of which the source has none) - this keeps the thorough tier inside its time budget
+        bconfigs = configs if b0 < FULL_CROSS else [(t, SCHEDULES[(b0 // BATCH + k) % len(SCHEDULES)]) for k, t in enumerate(THREADS)]
+        nruns += len(bids) * (len(bconfigs) + 1)
         with cf.ThreadPoolExecutor(pool) as ex:
-            results = list(ex.map(one, configs))
+            results = list(ex.map(one, bconfigs))
         for (t, s), rc, cases, se in results:
             if rc != 0:
                 res.violation("tsgdrv-crash", "tsgdrv (omp, %d threads, %s) exited with %d: %s" % (t, s, rc, se[-300:]),
@@ -389,12 +396,13 @@ def run(res, tier, seed, replay_script=None):
     for f in (facts or []):
         cls_count[f["class"]] = cls_count.get(f["class"], 0) + 1
     res.coverage.update({
-        "evaluations": len(scripts) * (len(configs) + 1) + swarm["cases"] * (swarm["configs"] + 1),
+        "evaluations": nruns + swarm["cases"] * (swarm["configs"] + 1),
         "distinct_nontrivial": len(nontriv),
         "rule": "scripts = make (random family/rule/dims/depth/order/limits/transform); observe; load; batch evaluation, dense and sparse basis "
                 "matrices, integrate, differentiate, weights; 1-4 of {refinement of a random strategy, updateGrid, dynamic construction with "
                 "shuffled deliveries, anisotropy estimate}; each script runs on the serial build and on the OpenMP build for every "
-                "(OMP_NUM_THREADS, OMP_SCHEDULE) in {1,2,3,8,16} x {static, dynamic,1, guided}; non-trivial = at least one successful refinement / "
+                "(OMP_NUM_THREADS, OMP_SCHEDULE) in {1,2,3,8,16} x {static, dynamic,1, guided} (thorough tier: the full cross product for the first 1600 "
+                "scripts, then all five thread counts with a rotating schedule); non-trivial = at least one successful refinement / "
                 "update / construction step; distinct by script hash",
         "samples": [scripts[c] for c in list(scripts)[6:8]] or [list(scripts.values())[0]],
         "programs": len(scripts), "configurations": ["%d/%s" % c for c in configs],
